@@ -4,7 +4,7 @@ CONSTANTS
   Unit = 8
   TickMs = 125
   Family = "zero"
-  Bursts = {0, 1, 2}
+  Bursts = {0, 2}
   Rates <- RatesZero
   SetRates <- RatesZero
   Ns = {0, 1, 3}
